@@ -31,7 +31,11 @@ PROP = {
             "templates (if/for/assignment) and function-valued templates; arguments: literals, identifiers, operators binding looser "
             "than the template context (+, |, &, <<, <, ||, =), side effects (print, say(), tick(), cnt++), nested macro calls; call "
             "sites at top level, as operand on either side, in functions, loops, array/map literals, index, if conditions, return, "
-            "lambdas, as callee; definitions in the first or a later input. 50 fixed sessions: the hand-seen witnesses and the malformed "
+            "lambdas, as callee; definitions in the first or a later input; (macrofam2.go) 40 templates over the statement grammar "
+            "(slice bounds, open-ended slices, dot index, map keys, else-if chains, return inside a function template, logical / comparison / "
+            "prefix operators, every builtin, assignment) x 21 arguments (strings, arrays, maps, lambdas, function literals with return, "
+            "if-expressions, slices, side effects, looser operators), each as a statement and as the right-hand side of an assignment, with the "
+            "hand-substituted session; a macro redefined / used before its definition inside one input. 50 fixed sessions: the hand-seen witnesses and the malformed "
             "stream (wrong arity, body not a quote, unquote outside quote, undefined macro, redefinition, constant-named redefinition, "
             "macro named like a variable / an extension / info, macro literal not at top level or assigned to an index, non-parameter "
             "unquotes, macro call inside another template, parameter named like a macro or an extension). non-trivial = every case.",
